@@ -734,9 +734,12 @@ class Explorer:
             if hinted is not None:
                 r = z3.sat
                 s = None
+        # failure budget: once several obligations of this function have failed, the remaining ones get a short budget
+        # (the verdict 'not all obligations discharged' is already determined; do not spend minutes per path)
+        tmo = self.timeout_ms if getattr(self, "n_bad", 0) < 3 else 1500
         if r is None:
             s = z3.Solver()
-            s.set("timeout", self.timeout_ms)
+            s.set("timeout", tmo)
             s.add(st.pc)
             s.add(z3.Not(goal))
             nonlin = any(not is_linear(h) for h in st.pc) or not is_linear(goal)
@@ -745,7 +748,7 @@ class Explorer:
             elif nonlin:
                 # nonlinear + quantified queries can make the in-process solver ignore its timeout: run the z3 binary
                 # under a hard wall-clock limit instead (same formula, SMT-LIB text)
-                r = external_check(s, max(5, self.timeout_ms // 1000))
+                r = external_check(s, max(2, tmo // 1000))
             else:
                 r = s.check()
         dt = time.time() - t0
@@ -770,6 +773,8 @@ class Explorer:
             backend = "z3(hinted model search)"
             detail = model_str(mdl)
             witness = model_json(mdl)
+        elif r == z3.unknown and getattr(self, "n_bad", 0) >= 3:
+            detail = "not discharged within the reduced budget (several obligations of this function already failed)"
         elif r == z3.unknown:
             from .common import cvc5_check_smt2
 
@@ -789,6 +794,8 @@ class Explorer:
                 except z3.Z3Exception:
                     why = "timeout"
                 detail = "z3: %s; cvc5: %s" % (why or "timeout", r2)
+        if status != "proved" and kind != "canary":
+            self.n_bad = getattr(self, "n_bad", 0) + 1
         ob = self.obs.get(name)
         if ob is None:
             ob = Ob(id=name, status=status, backend=backend, time_s=dt, detail=detail, witness=witness,
